@@ -1,5 +1,6 @@
 import HawkModel.CtxRc
 import HawkModel.CtxExit
+import HawkModel.CtxApiLemmas
 /-!
 # C09 — Runtime contexts are isolated and the embedding API keeps its ownership contract
 
@@ -384,3 +385,257 @@ example (p : Prog) : ∀ cid, ((World.init p).run [.open 0, .close 0]).1.ctxs ci
   simp [World.run, World.step, World.init, World.setCtx, Interp.parse, Interp.clear]
 
 end Hawk.Ctx
+
+/-!
+## 8. several `hawk_t`: the object level of the embedding API (model: `HawkModel/CtxApi.lean`)
+
+A world is any number of `hawk_t` objects, each with its runtimes.  One API call is `World.step`; by construction
+it reads and writes only the `hawk_t` it is made on (`stepHawk`), which is what the correspondence harness
+`harness/ctxapi_h.c` checks on the real code with one counting memory manager per `hawk_t`.
+-/
+namespace Hawk.CtxApi
+
+/-! ### non-interference and commutation -/
+
+/-- a call on one `hawk_t` leaves every other `hawk_t` (with all its runtimes) exactly as it was -/
+theorem api_other_hawk_untouched (w : World) (o : Op) (j : Nat) (h : o.hawk ≠ j) : (w.step o).1 j = w j :=
+  World.set_other w _ h
+
+/-- the result of a call and the new state of its `hawk_t` depend on that `hawk_t` alone -/
+theorem api_step_local (w w' : World) (o : Op) (h : w o.hawk = w' o.hawk) :
+    (w.step o).2 = (w'.step o).2 ∧ (w.step o).1 o.hawk = (w'.step o).1 o.hawk := by
+  simp [World.step, h]
+
+/-- calls on different `hawk_t` commute: same final world, and each call returns what it returns alone -/
+theorem api_commute (w : World) (a b : Op) (h : a.hawk ≠ b.hawk) :
+    ((w.step a).1.step b).1 = ((w.step b).1.step a).1 ∧
+    ((w.step a).1.step b).2 = (w.step b).2 ∧ ((w.step b).1.step a).2 = (w.step a).2 := by
+  have hab : (w.step a).1 b.hawk = w b.hawk := api_other_hawk_untouched w a _ h
+  have hba : (w.step b).1 a.hawk = w a.hawk := api_other_hawk_untouched w b _ (Ne.symm h)
+  refine ⟨?_, (api_step_local _ _ b hab).1, (api_step_local _ _ a hba).1⟩
+  funext j
+  by_cases hja : j = a.hawk
+  · subst hja
+    rw [api_other_hawk_untouched _ b _ (Ne.symm h)]
+    exact ((api_step_local _ _ a hba).2).symm
+  · by_cases hjb : j = b.hawk
+    · subst hjb
+      rw [api_other_hawk_untouched ((w.step b).1) a _ h]
+      exact (api_step_local _ _ b hab).2
+    · rw [api_other_hawk_untouched _ b _ (Ne.symm hjb), api_other_hawk_untouched _ a _ (Ne.symm hja),
+          api_other_hawk_untouched _ a _ (Ne.symm hja), api_other_hawk_untouched _ b _ (Ne.symm hjb)]
+
+/-- what is observable of `hawk_t` number `i` along a history: for each call made on `i`, its result (return
+    text, callback events) and the whole state of `i` afterwards (from which `dumpHawk` prints the harness line) -/
+def World.trace (w : World) (i : Nat) : List Op → List (Res × Option HawkS)
+  | [] => []
+  | o :: os =>
+    if o.hawk = i then ((w.step o).2, (w.step o).1 i) :: (w.step o).1.trace i os else (w.step o).1.trace i os
+
+theorem api_trace_congr (i : Nat) (ops : List Op) : ∀ w w' : World, w i = w' i → w.trace i ops = w'.trace i ops := by
+  induction ops with
+  | nil => intro w w' _; rfl
+  | cons o os ih =>
+    intro w w' h
+    simp only [World.trace]
+    by_cases ho : o.hawk = i
+    · have hl := api_step_local w w' o (by rw [ho]; exact h)
+      have h2 : (w.step o).1 i = (w'.step o).1 i := by have := hl.2; rw [ho] at this; exact this
+      rw [if_pos ho, if_pos ho, hl.1, h2, ih _ _ h2]
+    · rw [if_neg ho, if_neg ho]
+      exact ih _ _ (by rw [api_other_hawk_untouched w o i ho, api_other_hawk_untouched w' o i ho]; exact h)
+
+/-- non-interference over any number of `hawk_t`: for every interleaving, what is observable of `hawk_t` `i`
+    is what the history's projection on `i` (its own calls alone, in order) produces -/
+theorem api_noninterference (i : Nat) (ops : List Op) : ∀ w : World,
+    w.trace i ops = w.trace i (ops.filter (fun o => o.hawk == i)) := by
+  induction ops with
+  | nil => intro w; rfl
+  | cons o os ih =>
+    intro w
+    by_cases ho : o.hawk = i
+    · have e : (o :: os).filter (fun o => o.hawk == i) = o :: os.filter (fun o => o.hawk == i) :=
+        List.filter_cons_of_pos (by simpa using ho)
+      rw [e]; simp only [World.trace, if_pos ho]; rw [ih]
+    · have e : (o :: os).filter (fun o => o.hawk == i) = os.filter (fun o => o.hawk == i) :=
+        List.filter_cons_of_neg (by simpa using ho)
+      rw [e]; simp only [World.trace, if_neg ho]
+      rw [ih, api_trace_congr i _ _ w (api_other_hawk_untouched w o i ho)]
+
+/-- two interleavings with the same calls of `i` in the same order are indistinguishable on `i` -/
+theorem api_noninterference_two_schedules (i : Nat) (h₁ h₂ : List Op) (w : World)
+    (hsame : h₁.filter (fun o => o.hawk == i) = h₂.filter (fun o => o.hawk == i)) :
+    w.trace i h₁ = w.trace i h₂ := by
+  rw [api_noninterference i h₁ w, api_noninterference i h₂ w, hsame]
+
+/-! ### inside one `hawk_t`: runtimes are isolated from each other, error state is per object -/
+
+/-- a call on runtime `r` leaves every sibling runtime (values, handles, error number, exit level, callback chain,
+    extension area) and everything of the `hawk_t` but its error number exactly as it was -/
+theorem api_rtx_call_siblings_untouched (w : World) (h r q : Nat) (op : ROp) (s : HawkS) (hs : w h = some s) (hq : q ≠ r) :
+    ∃ s', (w.step (.rcall h r op)).1 h = some s' ∧ s'.rtxs q = s.rtxs q ∧ s'.frame = s.frame := by
+  refine ⟨(stepRtxIn h r s op).1, ?_, stepRtxIn_sibling h r q s op hq, stepRtxIn_frame h r s op⟩
+  simp [World.step, Op.hawk, stepHawk, hs]
+
+/-- the error number of the `hawk_t` after a call on one of its runtimes: `hawk_rtx_open` clears it; a call that
+    looks a function up by name and misses stores ENOENT there (the one place where a runtime call writes the
+    interpreter's error number: `res.herr`); every other runtime call leaves it alone -/
+theorem api_rtx_call_hawk_err (w : World) (h r : Nat) (op : ROp) (s : HawkS) (hs : w h = some s) :
+    ∃ s', (w.step (.rcall h r op)).1 h = some s' ∧
+      s'.err = match s.rtxs r, op with
+               | none, .«open» => .noerr
+               | none, _ => s.err
+               | some _, _ => ((w.step (.rcall h r op)).2.herr).getD s.err := by
+  refine ⟨(stepRtxIn h r s op).1, by simp [World.step, Op.hawk, stepHawk, hs], ?_⟩
+  have e : (w.step (.rcall h r op)).2 = (stepRtxIn h r s op).2 := by simp [World.step, Op.hawk, stepHawk, hs]
+  rw [e]
+  exact stepRtxIn_err h r s op
+
+/-- only a function call writes the interpreter's error number, and only with ENOENT -/
+theorem api_herr_only_lookup (tag : String) (v : View) (x : Rtx) (op : ROp) :
+    (stepR tag v x op).2.herr = none ∨ ((stepR tag v x op).2.herr = some .enoent ∧ ∃ f a, op = .call f a) := by
+  cases op with
+  | call f a =>
+    simp only [stepR]
+    unfold stepCall
+    repeat' split
+    all_goals first | (left; rfl) | (right; exact ⟨rfl, f, a, rfl⟩)
+  | loop => left; simp only [stepR]; unfold stepLoop; (repeat' split) <;> rfl
+  | _ => left; simp only [stepR]; all_goals ((repeat' split) <;> rfl)
+
+/-- a call on the `hawk_t` itself (options, callbacks, globals, functions, error number, halt-all, clear, parse)
+    never touches the state of a runtime -/
+theorem api_hawk_call_runtimes_untouched (w : World) (h : Nat) (op : HOp) (s s' : HawkS) (hs : w h = some s)
+    (hs' : (w.step (.hcall h op)).1 h = some s') : s'.rtxs = s.rtxs := by
+  simp [World.step, Op.hawk, stepHawk, hs] at hs'
+  exact stepH_rtxs h s s' op hs'
+
+/-! ### halting -/
+
+/-- `hawk_rtx_halt` stops its own runtime only: the siblings and the halt-all flag are untouched -/
+theorem api_halt_one (w : World) (h r : Nat) (s : HawkS) (x : Rtx) (hs : w h = some s) (hx : s.rtxs r = some x) :
+    ∃ s', (w.step (.rcall h r .halt)).1 h = some s' ∧ (∃ x', s'.rtxs r = some x' ∧ x'.xl = 6) ∧
+      (∀ q, q ≠ r → s'.rtxs q = s.rtxs q) ∧ s'.haltall = s.haltall := by
+  refine ⟨(stepRtxIn h r s .halt).1, by simp [World.step, Op.hawk, stepHawk, hs], ?_, fun q hq => stepRtxIn_sibling h r q s .halt hq, ?_⟩
+  · simp [stepRtxIn, hx, stepR]
+  · have := stepRtxIn_frame h r s .halt
+    exact congrArg Frame.haltall this
+
+/-- `hawk_haltall` reaches every runtime of its `hawk_t` (they all read the flag) and no other `hawk_t` -/
+theorem api_haltall_reaches_every_runtime (w : World) (h : Nat) (s : HawkS) (hs : w h = some s) :
+    ∃ s', (w.step (.hcall h .haltall)).1 h = some s' ∧ s'.view.haltall = true ∧ s'.rtxs = s.rtxs ∧
+      ∀ j, j ≠ h → (w.step (.hcall h .haltall)).1 j = w j := by
+  refine ⟨{ s with haltall := true }, by simp [World.step, Op.hawk, stepHawk, hs, stepH], rfl, rfl, ?_⟩
+  intro j hj
+  exact api_other_hawk_untouched w _ j (by simpa [Op.hawk] using Ne.symm hj)
+
+/-- under halt-all every admitted function call ends with the runtime aborted and nothing else of it changed -/
+theorem api_haltall_aborts (tag : String) (v : View) (r : Rtx) (f a : String) (p : Nat) (hp : v.prog = some p)
+    (hf : f ∈ progFuns p) (hh : v.haltall = true) (hx : r.xl < 5) :
+    (stepCall tag v r f a).1.xl = 6 ∧ (stepCall tag v r f a).1.heap = r.heap ∧
+    (stepCall tag v r f a).1.g0 = r.g0 ∧ (stepCall tag v r f a).1.hnd = r.hnd := by
+  unfold stepCall
+  simp only [hp, hf, not_true_eq_false, if_false, Nat.not_le.mpr hx, hh, if_true]
+  split <;> exact ⟨rfl, rfl, rfl, rfl⟩
+
+/-- a runtime that exited or was halted refuses every further call with EPERM and changes nothing else ... -/
+theorem api_latched_refused (tag : String) (v : View) (r : Rtx) (f a : String) (p : Nat) (hp : v.prog = some p)
+    (hf : f ∈ progFuns p) (hx : 5 ≤ r.xl) :
+    stepCall tag v r f a = ({ r with err := .eperm }, { out := "fail:EPERM" }) := by
+  unfold stepCall
+  simp [hp, hf, hx]
+
+/-- ... until `hawk_rtx_loop`, which always ends with the exit level reset -/
+theorem api_loop_unlatches (tag : String) (v : View) (r : Rtx) : (stepLoop tag v r).1.xl = 0 := by
+  unfold stepLoop
+  repeat' split
+  all_goals rfl
+
+/-! ### callbacks: exactly once, top first -/
+
+/-- `hawk_close` runs the `clear` callback of every pushed set, top first, then the `close` callback of every
+    pushed set, top first, and the object is gone -/
+theorem api_hclose_callbacks (h : Nat) (s : HawkS) (hb : s.busy = false) :
+    stepH h s .close =
+      (none, { out := "ok", log := cbLog "hclear" (toString h) s.ecbs ++ cbLog "hclose" (toString h) s.ecbs }) := by
+  simp [stepH, hb]
+
+/-- `hawk_rtx_close` runs the `close` callback of every pushed runtime set, top first -/
+theorem api_rclose_callbacks (tag : String) (v : View) (r : Rtx) :
+    (stepR tag v r .close).1 = none ∧ (stepR tag v r .close).2.log = cbLog "rclose" tag r.ecbs := ⟨rfl, rfl⟩
+
+/-- one event per set of the chain, in chain order -/
+theorem api_cbLog_once (what tag : String) (ecbs : List Nat) :
+    (cbLog what tag ecbs).length = ecbs.length ∧
+    ∀ k (hk : k < ecbs.length), (cbLog what tag ecbs)[k]? = some (what ++ tag ++ ":" ++ toString ecbs[k]) := by
+  refine ⟨by simp [cbLog], ?_⟩
+  intro k hk
+  simp [cbLog, hk]
+
+/-- push puts a set on top, pop takes the top one off: the chain is the stack of pushed-and-not-popped sets -/
+theorem api_ecb_stack (h : Nat) (s : HawkS) (e : Nat) (he : e < 4) (hn : e ∉ s.ecbs) :
+    (stepH h s (.pushecb e)).1 = some { s with ecbs := e :: s.ecbs } ∧
+    (stepH h { s with ecbs := e :: s.ecbs } .popecb).1 = some s := by
+  constructor
+  · simp [stepH, Nat.not_le.mpr he, hn]
+  · simp [stepH]
+
+/-! ### ledger: nothing of a closed object is touched, close is refused while runtimes exist -/
+
+/-- a call on a `hawk_t` that is closed (or was never opened) changes nothing anywhere -/
+theorem api_closed_hawk_untouched (w : World) (o : Op) (hn : w o.hawk = none) (hno : ∀ x, o ≠ .hopen x) :
+    (w.step o).1 = w ∧ (w.step o).2.out = "nohawk" := by
+  have key : stepHawk o.hawk none o = (none, { out := "nohawk" }) := by
+    cases o with
+    | hopen x => exact absurd rfl (hno x)
+    | hcall x op => rfl
+    | rcall x r op => rfl
+  constructor
+  · funext j
+    simp only [World.step, hn, key]
+    by_cases hj : j = o.hawk
+    · subst hj; simp [hn]
+    · exact World.set_other w _ (Ne.symm hj)
+  · simp [World.step, hn, key]
+
+/-- a call on a runtime that is closed changes nothing (only `hawk_rtx_open` may name it) -/
+theorem api_closed_rtx_untouched (w : World) (h r : Nat) (s : HawkS) (hs : w h = some s) (hr : s.rtxs r = none)
+    (op : ROp) (hop : op ≠ .«open») :
+    (w.step (.rcall h r op)).1 = w ∧ (w.step (.rcall h r op)).2.out = "nortx" := by
+  have key : stepRtxIn h r s op = (s, { out := "nortx" }) := by
+    unfold stepRtxIn
+    cases op <;> simp_all
+  constructor
+  · funext j
+    simp only [World.step, Op.hawk, stepHawk, hs, key]
+    by_cases hj : j = h
+    · subst hj; simp [hs]
+    · exact World.set_other w _ (Ne.symm hj)
+  · simp [World.step, Op.hawk, stepHawk, hs, key]
+
+/-- `hawk_close`, `hawk_clear` and `hawk_parse` are refused while a runtime of the `hawk_t` exists, so no runtime
+    ever outlives its interpreter or its program -/
+theorem api_refused_while_busy (h : Nat) (s : HawkS) (hb : s.busy = true) (p : Nat) :
+    stepH h s .close = (some s, { out := "busy" }) ∧ stepH h s .clear = (some s, { out := "busy" }) ∧
+    stepH h s (.parse p) = (some s, { out := "busy" }) := by
+  simp [stepH, hb]
+
+/-- after `hawk_close` the object does not exist any more -/
+theorem api_hclose_removes (w : World) (h : Nat) (s : HawkS) (hs : w h = some s) (hb : s.busy = false) :
+    (w.step (.hcall h .close)).1 h = none := by
+  simp [World.step, Op.hawk, stepHawk, hs, stepH, hb]
+
+/-! ### non-vacuity -/
+
+/-- two interpreters with a runtime each are reachable; the hypotheses of the theorems above hold there -/
+example : ∃ s, ((World.empty.run [.hopen 0, .hopen 1, .hcall 0 (.parse 0), .rcall 0 0 .open, .rcall 0 1 .open]).1 0) = some s ∧
+    (∃ x, s.rtxs 0 = some x ∧ x.xl < 5) ∧ s.rtxs 2 = none ∧ s.busy = true ∧ s.view.prog = some 0 := by
+  refine ⟨_, rfl, ⟨_, rfl, by decide⟩, rfl, rfl, rfl⟩
+
+example : (World.empty.run [.hopen 0, .hcall 0 (.pushecb 1), .hcall 0 (.pushecb 3), .hcall 0 .close]).2.map (·.log) =
+    [[], [], [], ["hclear0:3", "hclear0:1", "hclose0:3", "hclose0:1"]] := by
+  rfl
+
+example : "getg" ∈ progFuns 0 := by decide
+
+end Hawk.CtxApi
